@@ -16,6 +16,14 @@ and writes them to lean/DuneVerif/Gen/C07.lean.  Props/C07.lean proves that the 
 standard says about the handles (`Model.mpiCType`, `Model.mpiOpFunctor`), that user ops are not declared commutative,
 and that every generated stand-in body is the model's `Seq.*` function (about which the `seq_eq_oneproc_*` theorems
 are proved).  Anything outside the small statement grammar makes the translator fail loudly.
+
+R5: the grammar is closed under the ordinary behaviour-preserving respellings (see design_notes/C07.md, "Round five"): locals, parameters
+and data members are followed by what they denote (names, `const`, `this->` do not matter), `create on first use` may be an if-block or a
+guard clause (`lazy_getter`), element / copy loops may be index loops, pointer walks, count-down walks or std::copy / copy_n / transform
+(`user_op_body`, `translate_body`), sums and products are put in canonical order, hoisted `const` locals are inlined, `a -= b` may be a
+new local `c = a - b` (`_TypeProg.addrval`), `(me==root) * x` = `me==root ? x : 0`, the status pointer of rrecv may be defaulted by an
+`if` or by a conditional expression.  Equivalent spellings therefore generate the same Lean text (docstrings aside).
+`python3 tools/translators/tr_c07.py --selftest` replays the respellings (quiet) and the changes of meaning (loud / different output).
 """
 import os
 import re
@@ -87,9 +95,19 @@ def op_table(src):
 
 
 def user_op(src):
-    m = re.search(r"MPI_Op_create\s*\(\s*\(void \(\*\)\(void\*, void\*, int\*, MPI_Datatype\*\)\)\s*&operation\s*,\s*(\w+)\s*,\s*op\.get\(\)\s*\)", src)
-    if not m:
+    m0 = re.search(r"MPI_Op_create\s*\(", src)
+    if not m0:
         raise TranslateError("MPI_Op_create(...&operation, <commute>, op.get()) not found")
+    oargs = split_top(src[m0.end():balanced(src, m0.end() - 1, "(", ")") - 1])
+    # R5: any cast of `&operation` / `operation` to the MPI user function type; the handle is whatever `.get()` is called on
+    if len(oargs) != 3 or not re.fullmatch(r"(?:\(void\(\*\)\(void\*,void\*,int\*,MPI_Datatype\*\)\)|reinterpret_cast<(?:MPI_User_function\*|void\(\*\)\(void\*,void\*,int\*,MPI_Datatype\*\))>\()\(?&?operation\)?\)?",
+                                        _nows(oargs[0])) or not re.fullmatch(r"%s\.get\(\)" % IDENT_, _nows(oargs[2])):
+        raise TranslateError("MPI_Op_create(...&operation, <commute>, op.get()) not found: " + ", ".join(oargs)[:160])
+
+    class _M:
+        def group(self, k):
+            return _nows(oargs[1])
+    m = _M()
     if m.group(1) not in ("true", "false", "0", "1"):
         raise TranslateError("commute argument of MPI_Op_create is not a literal: " + m.group(1))
     commute = m.group(1) in ("true", "1")
@@ -154,6 +172,18 @@ def user_op_body(a_in, a_inout, a_len, body):
             continue
         fail("statement in front of the loop: " + st)
     loop = sts[-1]
+    # std::transform(in, in + *len, inout, inout, func)  ==  for (i) inout[i] = func(in[i], inout[i])
+    m = re.fullmatch(r"std::transform ?\((.*)\)", loop)
+    if m:
+        ta = [_nows(q) for q in split_top(m.group(1))]
+        if len(ta) != 5 or not all(q in role for q in (ta[0], ta[2], ta[3])):
+            fail("std::transform arguments")
+        em = re.fullmatch(r"%s\+(.*)" % re.escape(ta[0]), ta[1])
+        if not em or not (_nows(em.group(1)) == "*" + a_len or em.group(1) in bound_alias):
+            fail("std::transform does not run over *len elements")
+        if not ((func is not None and ta[4] == func) or ta[4] in ("BinaryFunction()", "BinaryFunction{}")):
+            fail("std::transform applies something other than the functor")
+        return [role[ta[0]], role[ta[2]]], role[ta[3]]
     m = re.match(r"for ?\(", loop)
     if not m:
         fail("no for loop")
@@ -358,7 +388,7 @@ def singleton_rows(sources):
             flat = re.sub(r"\s+", " ", gbody).strip()
             if re.fullmatch(r"return %s ?;" % IDENT_, flat) and not re.search(r"\bstatic\b[^;(]*\b%s\s*;" % flat.split()[1].rstrip(";"), body):
                 continue                              # returns a predefined handle (ComposeMPIOp): no state
-            var, _block = lazy_getter("%s%s::%s()" % (cname, spec_n, getter), gbody)
+            var, _block = lazy_getter("%s%s::%s()" % (cname, spec_n, getter), gbody, "datatype" if cname == "MPITraits" else "op")
             decl = r"static\s+(?:inline\s+)?(?:MPI_Datatype|std::unique_ptr\s*<\s*MPI_Op\s*>)\s+%s\b" % var
             body_wo_getter = body if not gm else body[:gm.start()] + body[balanced(body, gm.end() - 1):]
             if re.search(decl, body_wo_getter) or re.search(decl, gbody):
@@ -384,34 +414,36 @@ def singleton_rows(sources):
 # ------------------------------------------------------------------------------------------------
 # R5: the shapes of "create on first use" (normalised to: handle, construction block)
 # ------------------------------------------------------------------------------------------------
-_NULLS = ("MPI_DATATYPE_NULL", "nullptr", "NULL", "0")
-
-
-def _null_test(cond):
-    """condition of an `if` -> (handle, True if the condition holds when the handle is NOT yet created) or None"""
+def _null_test(cond, kind):
+    """condition of an `if` -> (handle, True if the condition holds when the handle is NOT yet created) or None.
+    kind "datatype": the handle is an MPI_Datatype whose `not yet created` value is MPI_DATATYPE_NULL (a non-null pointer in Open MPI:
+    `!h`, `h == nullptr`, `h == 0` are NOT null tests); kind "op": a std::unique_ptr<MPI_Op> (`!h`, `h`, `h == nullptr`)."""
+    nulls = ("MPI_DATATYPE_NULL",) if kind == "datatype" else ("nullptr",)
     c = _nows(cond)
     while c.startswith("(") and balanced(c, 0, "(", ")") == len(c):
         c = c[1:-1]
-    m = re.fullmatch(r"!(%s)" % IDENT_, c)
-    if m:
-        return m.group(1), True
-    m = re.fullmatch(r"(%s)" % IDENT_, c)
-    if m and c not in _NULLS:
-        return m.group(1), False
+    if kind == "op":
+        m = re.fullmatch(r"!(%s)" % IDENT_, c)
+        if m:
+            return m.group(1), True
+        m = re.fullmatch(r"(%s)" % IDENT_, c)
+        if m and c not in nulls:
+            return m.group(1), False
     m = re.fullmatch(r"(%s)(==|!=)(%s)" % (IDENT_, IDENT_), c)
     if m:
         a, op, b = m.groups()
-        if b in _NULLS and a not in _NULLS:
+        if b in nulls and a not in nulls:
             return a, op == "=="
-        if a in _NULLS and b not in _NULLS:
+        if a in nulls and b not in nulls:
             return b, op == "=="
     return None
 
 
-def lazy_getter(where, gbody):
+def lazy_getter(where, gbody, kind):
     """body of a getter that creates a handle on first use -> (handle variable, text of the construction block).
     Recognised spellings (all mean `if (handle is null) { block } return handle;`):
-      [decls] if (<null test>) { block } return [*]handle;        <null test>: !h, h == NULL, NULL == h (NULL: MPI_DATATYPE_NULL, nullptr)
+      [decls] if (<null test>) { block } return [*]handle;        <null test>: h == N, N == h with N = MPI_DATATYPE_NULL for an MPI_Datatype;
+                                                                   !h, h == nullptr, nullptr == h for the std::unique_ptr<MPI_Op>
       [decls] if (<null test>) stmt; return [*]handle;
       [decls] if (<non-null test>) [{] return [*]handle; [}] block return [*]handle;      (guard clause; test: h, h != NULL, NULL != h)
     where [decls] are declarations of function-local statics / references (kept in front of the block for the caller).
@@ -426,10 +458,10 @@ def lazy_getter(where, gbody):
         raise TranslateError("%s: statements in front of the `if (handle is null)` test: %s" % (where, re.sub(r"\s+", " ", pre)[:160]))
     p0 = g.index("(", im.start())
     p1 = balanced(g, p0, "(", ")")
-    nt = _null_test(g[p0 + 1:p1 - 1])
+    nt = _null_test(g[p0 + 1:p1 - 1], kind)
     if not nt:
-        raise TranslateError("%s: no `if (!handle)` / `if (handle == MPI_DATATYPE_NULL)` test (or its negation as a guard clause): %s"
-                             % (where, re.sub(r"\s+", " ", g)[:160]))
+        raise TranslateError("%s: no `if (%s)` test (or its negation as a guard clause): %s"
+                             % (where, "handle == MPI_DATATYPE_NULL" if kind == "datatype" else "!handle", re.sub(r"\s+", " ", g)[:160]))
     handle, when_null = nt
     rest = g[p1:].lstrip()
     if rest.startswith("{"):
@@ -792,7 +824,7 @@ def type_programs(sources):
                 fam = re.sub(r"\b%s\b" % re.escape(q), "$%d" % (k + 1), fam)
             if fam not in TYPEPROG_NAMES:
                 raise TranslateError("datatype construction of an unknown class template: " + fam)
-            handle, block = lazy_getter("%s::getType()" % fam, gbody)
+            handle, block = lazy_getter("%s::getType()" % fam, gbody, "datatype")
             selftype = spec_n[1:-1]
             progs.append((TYPEPROG_NAMES[fam], fam, _TypeProg(fam, params, selftype, block, handle).result()))
     missing = [f for f in TYPEPROG_NAMES if f not in [p[1] for p in progs]]
@@ -1307,8 +1339,26 @@ def wrapper_rows(src):
     tps = method_templates(body)
     if len(ms) != len(tps):
         raise TranslateError("member functions of Communication<MPI_Comm> not parsed consistently")
+    # R5: the data members are identified by what the constructor stores in them, not by their names
+    flat = re.sub(r"\s+", "", body)
+    mr = re.search(r"MPI_Comm_rank\((%s),&(%s)\)" % (IDENT_, IDENT_), flat)
+    mz = re.search(r"MPI_Comm_size\((%s),&(%s)\)" % (IDENT_, IDENT_), flat)
+    if not mr or not mz or mr.group(1) != mz.group(1) or mr.group(2) == mz.group(2):
+        raise TranslateError("constructor of Communication<MPI_Comm>: MPI_Comm_rank / MPI_Comm_size on the stored communicator not found")
+    members = {mr.group(1): "communicator", mr.group(2): "me", mz.group(2): "procs"}
+    for mem, canon in members.items():
+        ty = "MPI_Comm" if canon == "communicator" else "int"
+        if not re.search(r"[;}:]\s*%s\s+%s\s*;" % (ty, re.escape(mem)), body):
+            raise TranslateError("Communication<MPI_Comm>: data member %s (%s) not declared as `%s %s;`" % (mem, canon, ty, mem))
     rows = {}
     for (name, params, mbody), tparams in zip(ms, tps):
+        if any(p in members or p in members.values() for (t, p) in params):
+            raise TranslateError("Communication<MPI_Comm>::%s: a parameter hides a data member" % name)
+        for mem, canon in members.items():
+            if mem != canon:
+                if re.search(r"\b%s\b" % canon, mbody):
+                    raise TranslateError("Communication<MPI_Comm>::%s: `%s` is not the data member any more" % (name, canon))
+                mbody = re.sub(r"\b%s\b" % re.escape(mem), canon, mbody)
         key = "%s_%d" % (name, len(params))
         if key not in WRAPPERS:
             if name in ("Communication", "operator", "rank", "size"):
@@ -1724,7 +1774,200 @@ def translate(repo):
     return [("DuneVerif/Gen/C07.lean", "\n".join(out))]
 
 
+# ------------------------------------------------------------------------------------------------
+# R5: self test of the normalisations: `python3 tools/translators/tr_c07.py --selftest [repo]`
+# POS: behaviour-preserving respellings of the current sources - the generated file must not change (docstrings aside);
+# NEG: changes of meaning (the seeded / hand-made mutants of rounds 2-4 and near misses of every normalisation) - the translator
+#      must fail loudly or generate something different.
+# ------------------------------------------------------------------------------------------------
+_MC, _TR, _SQ, _PL, _RI = "mpicommunication.hh", "mpitraits.hh", "communication.hh", "plocalindex.hh", "remoteindices.hh"
+_OPLOOP = """      for (int i=0; i< *len; ++i, ++in, ++inout) {
+        Type temp;
+        temp = func(*in, *inout);
+        *inout = temp;
+      }"""
+_ST_POS = {
+ "op_index": [(_MC, _OPLOOP, "const int n = *len; for (int i=0; i<n; ++i) { Type temp; temp = func(in[i], inout[i]); inout[i] = temp; }")],
+ "op_notemp": [(_MC, _OPLOOP, "for (int i=0; *len > i; i++, inout++, in++) *inout = func(*in, *inout);")],
+ "op_countdown": [(_MC, _OPLOOP, "for (int k=*len; k>0; --k, ++in, ++inout) { const Type t = func(*in, *inout); *inout = t; }")],
+ "op_ptrarith": [(_MC, _OPLOOP, "for (int i=0; i != *len; ++i) { *(inout+i) = func(*(in+i), *(inout+i)); }")],
+ "op_nofunc": [(_MC, "      BinaryFunction func;\n", ""), (_MC, "temp = func(*in, *inout);", "temp = BinaryFunction()(*in, *inout);")],
+ "op_transform": [(_MC, _OPLOOP, "std::transform(in, in + *len, inout, inout, func);")],
+ "get_guard": [(_MC, """      if (!op)
+      {
+        op = std::make_unique<MPI_Op>();""", """      if (op)
+        return *op;
+      {
+        op = std::make_unique<MPI_Op>();""")],
+ "fallback_guard": [(_TR, """      if(datatype==MPI_DATATYPE_NULL) {
+        MPI_Type_contiguous(sizeof(T),MPI_BYTE,&datatype);
+        MPI_Type_commit(&datatype);
+      }
+      return datatype;""", """      if(MPI_DATATYPE_NULL != datatype) { return datatype; }
+        MPI_Type_contiguous(sizeof(T),MPI_BYTE,&datatype);
+        MPI_Type_commit(&datatype);
+      return datatype;""")],
+ "pair_arrayinit": [(_TR, """      MPI_Aint disp[2];
+      MPI_Datatype types[2]""", """      using Pair = std::pair<T1, T2>;
+      const MPI_Aint disp[2] = {offsetof(Pair, first), offsetof(Pair, second)};
+      MPI_Datatype types[2]"""), (_TR, """      using Pair = std::pair<T1, T2>;
+      static_assert""", "      static_assert"), (_TR, "      disp[0] = offsetof(Pair, first);\n      disp[1] = offsetof(Pair, second);\n", "")],
+ "ip_indexloop": [(_RI, "      for (MPI_Aint& d : disp)\n        d -= base;", "      for (int i = 0; i < 2; ++i) {\n        disp[i] -= base;\n      }")],
+ "ip_diffs": [(_RI, "      for (MPI_Aint& d : disp)\n        d -= base;", "      disp[1] = disp[1] - base; disp[0] = disp[0] - base;")],
+ "pli_newlocal": [(_PL, "      disp -= base;\n", "      const MPI_Aint off = disp - base;\n"), (_PL, "&length, &disp, types", "&length, &off, types")],
+ "seq_gatherv_copy": [(_SQ, "      for (int i=0; i<sendDataLen; i++)\n        out[*displ+i] = in[i];\n      return 0;", "      std::copy(in, in+sendDataLen, out+*displ);\n      return 0;")],
+ "seq_scatterv_hoist": [(_SQ, "      for (int i=0; i<*sendDataLen; i++)\n        recvData[i] = sendData[*displ+i];", "      const int offset = *displ;\n      const int n = *sendDataLen;\n      for (int i=0; n != i; ++i) {\n        recvData[i] = sendData[i + offset];\n      }")],
+ "seq_gather_copyn": [(_SQ, "      for (int i=0; i<len; i++)\n        out[i] = in[i];", "      std::copy_n(in, len, out);")],
+ "seq_allgather_idx": [(_SQ, "      for(const T* end=sbuf+count; sbuf < end; ++sbuf, ++rbuf)\n        *rbuf=*sbuf;", "      for (int i=0; i<count; ++i)\n        rbuf[i] = sbuf[i];")],
+ "seq_allgather_walk2": [(_SQ, "      for(const T* end=sbuf+count; sbuf < end; ++sbuf, ++rbuf)\n        *rbuf=*sbuf;", "      for(const T* const last=sbuf+count; sbuf != last; rbuf++, sbuf++) { *rbuf = *sbuf; }")],
+ "w_igather_ternary": [(_MC, "int outlen = (me==root) * mpidata_in.size();", "const int outlen = (root == me) ? mpidata_in.size() : 0;")],
+ "w_iscatter_commute": [(_MC, "int inlen = (me==root) * mpidata_in.size()/procs;", "const int inlen = mpidata_in.size() * (me==root) / procs;")],
+ "w_rename_future": [(_MC, """      MPIFuture<T> future(std::forward<T>(data));
+      auto mpidata = future.get_mpidata();
+      MPI_Ibcast(mpidata.ptr(),
+                 mpidata.size(),
+                 mpidata.type(),
+                 root,
+                 communicator,
+                 &future.req_);
+      return future;""", """      MPIFuture<T> result(std::forward<T>(data));
+      const auto view = result.get_mpidata();
+      MPI_Ibcast(view.ptr(), view.size(), view.type(), root, this->communicator, &result.req_);
+      return result;""")],
+ "w_rename_root": [(_MC, "int broadcast (T* inout, int len, int root) const\n    {\n      return MPI_Bcast(inout,len,MPITraits<T>::getType(),root,communicator);", "int broadcast (T* buffer, int count, int rootRank) const\n    {\n      return MPI_Bcast(buffer,count,MPITraits<T>::getType(),rootRank,communicator);")],
+ "w_sum_rename": [(_MC, "      T out;\n      allreduce<std::plus<T> >(&in,&out,1);\n      return out;", "      T result;\n      allreduce<std::plus<T> >(&in,&result,1);\n      return result;")],
+ "w_allreduce2_copyn": [(_MC, """      Type* out = new Type[len];
+      int ret = allreduce<BinaryFunction>(inout,out,len);
+      std::copy(out, out+len, inout);
+      delete[] out;
+      return ret;""", """      Type* tmp = new Type[len];
+      const int rc = allreduce<BinaryFunction>(inout,tmp,len);
+      std::copy_n(tmp, len, inout);
+      delete[] tmp;
+      return rc;""")],
+ "w_rrecv_ptrcopy": [(_MC, """      if(status == MPI_STATUS_IGNORE)
+        status = &_status;
+      MPI_Mprobe(source_rank, tag, communicator, &_message, status);
+      int size;
+      MPI_Get_count(status, mpi_data.type(), &size);
+      mpi_data.resize(size);
+      MPI_Mrecv(mpi_data.ptr(), mpi_data.size(), mpi_data.type(), &_message, status);""", """      MPI_Status* st = status;
+      if (MPI_STATUS_IGNORE == st) { st = &_status; }
+      int n = 0;
+      MPI_Mprobe(source_rank, tag, communicator, &_message, st);
+      MPI_Get_count(st, mpi_data.type(), &n);
+      mpi_data.resize(n);
+      MPI_Mrecv(mpi_data.ptr(), mpi_data.size(), mpi_data.type(), &_message, st);""")],
+ "w_rrecv_cond": [(_MC, """      if(status == MPI_STATUS_IGNORE)
+        status = &_status;
+      MPI_Mprobe(source_rank, tag, communicator, &_message, status);""", """      MPI_Status* const ps = (status != MPI_STATUS_IGNORE) ? status : &_status;
+      MPI_Mprobe(source_rank, tag, communicator, &_message, ps);"""), (_MC, "MPI_Get_count(status, mpi_data.type(), &size);", "MPI_Get_count(ps, mpi_data.type(), &size);"), (_MC, "mpi_data.type(), &_message, status);", "mpi_data.type(), &_message, ps);")],
+ "w_irecv_guard": [(_MC, "if (mpidata.size() == 0)\n        DUNE_THROW", "if (0 == mpidata.size()) DUNE_THROW")],
+}
+_ST_NEG = {
+ "op_swapped": [(_MC, _OPLOOP, "for (int i=0; i< *len; ++i, ++in, ++inout) *inout = func(*inout, *in);")],
+ "op_short": [(_MC, _OPLOOP, "for (int i=1; i< *len; ++i, ++in, ++inout) *inout = func(*in, *inout);")],
+ "op_nowalk": [(_MC, _OPLOOP, "for (int i=0; i< *len; ++i) *inout = func(*in, *inout);")],
+ "op_doublewalk": [(_MC, _OPLOOP, "for (int i=0; i< *len; ++i, ++in, ++inout) inout[i] = func(in[i], inout[i]);")],
+ "op_lenm1": [(_MC, _OPLOOP, "const int n = *len - 1; for (int i=0; i<n; ++i) inout[i] = func(in[i], inout[i]);")],
+ "op_target_in": [(_MC, _OPLOOP, "for (int i=0; i< *len; ++i) in[i] = func(in[i], inout[i]);")],
+ "op_transform_swapped": [(_MC, _OPLOOP, "std::transform(inout, inout + *len, in, inout, func);")],
+ "op_transform_short": [(_MC, _OPLOOP, "std::transform(in, in + *len - 1, inout, inout, func);")],
+ "op_commute": [(_MC, "&operation,false,op.get()", "&operation,true,op.get()")],
+ "fallback_nulltest_bang": [(_TR, "      if(datatype==MPI_DATATYPE_NULL) {\n        MPI_Type_contiguous(sizeof(T),MPI_BYTE,&datatype);", "      if(!datatype) {\n        MPI_Type_contiguous(sizeof(T),MPI_BYTE,&datatype);")],
+ "fallback_nulltest_nullptr": [(_TR, "      if(datatype==MPI_DATATYPE_NULL) {\n        MPI_Type_contiguous(sizeof(T),MPI_BYTE,&datatype);", "      if(datatype == nullptr) {\n        MPI_Type_contiguous(sizeof(T),MPI_BYTE,&datatype);")],
+ "get_guard_wrong": [(_MC, "      if (!op)\n      {", "      if (op)\n      {")],
+ "fv_offset_swapped": [(_TR, "        displ -= base;\n        int length[1]={1};\n\n        MPI_Type_create_struct(1, length, &displ, &vectortype, &datatype);", "        MPI_Aint off = base - displ;\n        int length[1]={1};\n\n        MPI_Type_create_struct(1, length, &off, &vectortype, &datatype);")],
+ "ip_loop_short": [(_RI, "      for (MPI_Aint& d : disp)\n        d -= base;", "      for (int i = 0; i < 1; ++i)\n        disp[i] -= base;")],
+ "pli_len3": [(_PL, "int length = 1;", "int length = 3;")],
+ "pair_noresize": [(_TR, "MPI_Type_create_resized(tmp, 0, sizeof(Pair), &type);", "type = tmp;")],
+ "seq_gatherv_nodispl": [(_SQ, "        out[*displ+i] = in[i];\n      return 0;", "        out[i] = in[i];\n      return 0;")],
+ "seq_gatherv_fwd": [(_SQ, "      for (int i=0; i<sendDataLen; i++)\n        out[*displ+i] = in[i];\n      return 0;", "      return gather(in, out, sendDataLen, root);")],
+ "seq_copy_short": [(_SQ, "std::copy(in, in+len, out);", "std::copy(in, in+len-1, out);")],
+ "seq_loop_le": [(_SQ, "      for (int i=0; i<len; i++)\n        out[i] = in[i];", "      for (int i=0; i<=len; i++)\n        out[i] = in[i];")],
+ "w_m2": [(_MC, "      mpi_data.resize(size);", "      if (size > mpi_data.size()) mpi_data.resize(size);")],
+ "w_m3": [(_MC, "int outlen = (me==root) * mpidata_in.size();", "int outlen = (me==root) * mpidata_out.size()/procs;")],
+ "w_Mg": [(_MC, "MPI_Get_count(status, mpi_data.type(), &size);", "MPI_Get_count(status, MPI_BYTE, &size);")],
+ "w_rrecv_nodefault": [(_MC, "      if(status == MPI_STATUS_IGNORE)\n        status = &_status;\n", "")],
+ "w_rrecv_default_wrong": [(_MC, "      if(status == MPI_STATUS_IGNORE)\n        status = &_status;\n", "      if(status != MPI_STATUS_IGNORE)\n        status = &_status;\n")],
+ "w_rrecv_order": [(_MC, "      mpi_data.resize(size);\n      MPI_Mrecv(mpi_data.ptr(), mpi_data.size(), mpi_data.type(), &_message, status);", "      MPI_Mrecv(mpi_data.ptr(), mpi_data.size(), mpi_data.type(), &_message, status);\n      mpi_data.resize(size);")],
+ "w_rrecv_ret_data": [(_MC, "mpi_data.type(), &_message, status);\n      return lvalue_data;", "mpi_data.type(), &_message, status);\n      return data;")],
+ "w_Mc": [(_MC, "                 root,\n                 communicator,\n                 &future.req_);", "                 0,\n                 communicator,\n                 &future.req_);")],
+ "w_Me": [(_MC, "std::copy(out, out+len, inout);", "std::copy(out, out+len-1, inout);")],
+ "w_Mf": [(_MC, "return allreduce<Min<T> >(inout,len);", "return allreduce<Max<T> >(inout,len);")],
+ "w_Mk": [(_MC, "out,recvDataLen,displ,MPITraits<T>::getType(),\n                            communicator);", "out,displ,recvDataLen,MPITraits<T>::getType(),\n                            communicator);")],
+ "w_ternary_wrong": [(_MC, "int outlen = (me==root) * mpidata_in.size();", "int outlen = (me==root) ? 0 : mpidata_in.size();")],
+ "w_root_as_count": [(_MC, "return MPI_Bcast(inout,len,MPITraits<T>::getType(),root,communicator);", "return MPI_Bcast(inout,root,MPITraits<T>::getType(),len,communicator);")],
+ "w_allreduce2_order": [(_MC, "      std::copy(out, out+len, inout);\n      delete[] out;", "      delete[] out;\n      std::copy(out, out+len, inout);")],
+ "w_sum_ret_in": [(_MC, "      allreduce<std::plus<T> >(&in,&out,1);\n      return out;", "      allreduce<std::plus<T> >(&in,&out,1);\n      return in;")],
+}
+
+
+def _selftest(repo="/repo"):
+    import shutil
+    import tempfile
+    src_dir = os.path.join(repo, "dune/common/parallel")
+    files = ["mpitraits.hh", "mpicommunication.hh", "communication.hh", "plocalindex.hh", "remoteindices.hh"]
+    tmp = tempfile.mkdtemp(prefix="tr_c07_selftest_")
+
+    def run(edits, whole=None):
+        d = os.path.join(tmp, "dune/common/parallel")
+        shutil.rmtree(os.path.join(tmp, "dune"), ignore_errors=True)
+        os.makedirs(d)
+        txt = {f: open(os.path.join(src_dir, f)).read() for f in files}
+        for (f, old, new) in edits:
+            if old not in txt[f]:
+                raise AssertionError("self test edit does not apply any more (the sources moved on): %s: %r" % (f, old[:60]))
+            txt[f] = txt[f].replace(old, new, 1)
+        if whole:
+            txt = whole(txt)
+        for f in files:
+            open(os.path.join(d, f), "w").write(txt[f])
+        out = translate(tmp)[0][1]
+        return "\n".join(l for l in out.split("\n") if not l.startswith("/-- `"))
+
+    def rename_members(txt):
+        t = txt["mpicommunication.hh"]
+        i = t.index("class Communication<MPI_Comm>")
+        cls = t[i:]
+        for a, b in (("communicator", "comm_"), ("me", "rank_"), ("procs", "size_")):
+            cls = re.sub(r"\b%s\b" % a, b, cls)
+        t = t[:i] + cls
+        txt["mpicommunication.hh"] = t.replace("(void (*)(void*, void*, int*, MPI_Datatype*))&operation,false,op.get()",
+                                               "reinterpret_cast<MPI_User_function*>(&operation), false, op.get()")
+        return txt
+    BASE = run([])
+    POS, NEG = _ST_POS, _ST_NEG
+
+    bad = 0
+    try:
+        if run([], rename_members) != BASE:
+            bad += 1
+            print("POS members_renamed DIFFERS")
+        for k, e in POS.items():
+            try:
+                if run(e) != BASE:
+                    bad += 1
+                    print("POS", k, "DIFFERS")
+            except TranslateError as x:
+                bad += 1
+                print("POS", k, "FAILS:", str(x)[:300])
+        for k, e in NEG.items():
+            try:
+                if run(e) == BASE:
+                    bad += 1
+                    print("NEG", k, "NOT DETECTED")
+            except TranslateError:
+                pass
+    finally:
+        shutil.rmtree(tmp, ignore_errors=True)
+    print("tr_c07 self test: %d respellings quiet, %d changes of meaning detected, %d problems" % (len(POS) + 1, len(NEG), bad))
+    return bad
+
+
 if __name__ == "__main__":
     import sys
+    if len(sys.argv) > 1 and sys.argv[1] == "--selftest":
+        sys.exit(1 if _selftest(*sys.argv[2:3]) else 0)
     for path, content in translate(sys.argv[1] if len(sys.argv) > 1 else "/repo"):
         print(content)
